@@ -146,6 +146,7 @@ type mediaWorld struct {
 	recv   []*recvState
 	byTrk  map[*rtpconn.VerifDownTrack]*recvState
 	inNACK map[string]int
+	nackSet map[string]map[uint16]bool // seqnos named by the NACK a task is answering
 	inSeq  map[string]int
 	readLoopTask string
 	nackWriterTasks map[string]bool
@@ -178,7 +179,7 @@ const mediaOffer = "v=0\r\no=- 0 0 IN IP4 127.0.0.1\r\ns=-\r\nt=0 0\r\nm=video 9
 const mediaOfferAudio = "v=0\r\no=- 0 0 IN IP4 127.0.0.1\r\ns=-\r\nt=0 0\r\nm=audio 9 UDP/TLS/RTP/SAVPF 111\r\nc=IN IP4 0.0.0.0\r\n"
 
 func newMediaWorld(c *Ctx, p *mediaPlan) *mediaWorld {
-	w := &mediaWorld{c: c, p: p, byTrk: map[*rtpconn.VerifDownTrack]*recvState{}, inNACK: map[string]int{}, inSeq: map[string]int{},
+	w := &mediaWorld{c: c, p: p, byTrk: map[*rtpconn.VerifDownTrack]*recvState{}, inNACK: map[string]int{}, nackSet: map[string]map[uint16]bool{}, inSeq: map[string]int{},
 		delivered: map[int64]bool{}, stored: map[int64]bool{}, nackedRL: map[int64]bool{}, nackedAny: map[int64]bool{}, arrivalPos: map[int64]int{},
 		nackWriterTasks: map[string]bool{}, check: map[string]bool{}}
 	w.src = genStream(&p.Stream)
@@ -321,6 +322,17 @@ func (w *mediaWorld) installProbes() {
 		t := simrt.CurrentTaskID()
 		if enter {
 			w.inNACK[t]++
+			set := map[uint16]bool{}
+			if len(args) > 1 {
+				if p, _ := args[1].(*rtcp.TransportLayerNack); p != nil {
+					for _, np := range p.Nacks {
+						for _, s := range np.PacketList() {
+							set[s] = true
+						}
+					}
+				}
+			}
+			w.nackSet[t] = set
 		} else {
 			w.inNACK[t]--
 		}
@@ -599,6 +611,10 @@ func (w *mediaWorld) judge(rs *recvState, pr *presentation, after rtpconn.VerifL
 		// ---------------- C03: retransmissions
 		if pr.fromNACK && w.check["C03"] {
 			c.Count("probe.nack_answered", 1)
+			if set := w.nackSet[pr.task]; set != nil && !set[out] {
+				c.Violation("C03.nack-answered-with-other-packet", "receiver %d: while answering a NACK for %v the server sent outgoing seqno %d (source seqno %d), which was not asked for", rs.idx, keysU16(set), out, src.Seq)
+				return
+			}
 			if rec := rs.sent[out]; rec != nil {
 				if !bytes.Equal(rec.bytes, pr.fwd) {
 					if len(rec.bytes) == len(pr.fwd) && len(rec.bytes) > 2 && bytes.Equal(rec.bytes[2:], pr.fwd[2:]) && rec.bytes[0] == pr.fwd[0] && (rec.bytes[1]^pr.fwd[1]) == 0x80 {
@@ -646,6 +662,15 @@ func (w *mediaWorld) judge(rs *recvState, pr *presentation, after rtpconn.VerifL
 	if !rs.haveHi || ext > rs.hi {
 		rs.hi, rs.haveHi = ext, true
 	}
+}
+
+func keysU16(m map[uint16]bool) []int {
+	var out []int
+	for k := range m {
+		out = append(out, int(k))
+	}
+	sort.Ints(out)
+	return out
 }
 
 func maxInt(a, b int) int {
